@@ -30,6 +30,7 @@ SetSetsAt(q, i, v) == [j \in 1..(IF i > Len(q) THEN i ELSE Len(q)) |-> IF j = i 
 
 HInit(P) ==
   [ev |-> <<>>, last |-> <<>>, born |-> <<>>,
+   sg |-> <<>>,      \* per task: the releases whose permits a fair semaphore handed to it while it was queued
    mb |-> [m \in 1..P.nmutex |-> << [n |-> 1, ev |-> 0] >>],
    rb |-> [r \in 1..P.nrw |-> << [n |-> MaxReads, ev |-> 0] >>],
    sb |-> [x \in 1..Len(P.sems) |-> IF P.sems[x].n > 0 THEN << [n |-> P.sems[x].n, ev |-> 0] >> ELSE <<>>],
@@ -48,6 +49,14 @@ Take(bs, n) ==   \* [rest, deps]
   IF n = 0 \/ bs = <<>> THEN [rest |-> bs, deps |-> {}]
   ELSE IF Head(bs).n > n THEN [rest |-> <<[n |-> Head(bs).n - n, ev |-> Head(bs).ev]>> \o Tail(bs), deps |-> {Head(bs).ev}]
   ELSE LET r == Take(Tail(bs), n - Head(bs).n) IN [rest |-> r.rest, deps |-> r.deps \cup {Head(bs).ev}]
+
+\* a fair semaphore hands permits to its queued waiters inside `release`, in queue order: the batches are consumed then
+RECURSIVE GrantAll(_, _, _, _)
+GrantAll(bs, sg, q, newly) ==     \* [bs, sg]
+  IF q = <<>> THEN [bs |-> bs, sg |-> sg]
+  ELSE IF Head(q).t \in newly
+       THEN LET r == Take(bs, Head(q).n) IN GrantAll(r.rest, SetSetsAt(sg, Head(q).t + 1, r.deps), Tail(q), newly)
+       ELSE GrantAll(bs, sg, Tail(q), newly)
 
 \* the latest logged operation of task w, or (before its first one) the spawn that created it
 LastOrBorn(h, w) == IF At(h.last, w + 1) # 0 THEN At(h.last, w + 1) ELSE At(h.born, w + 1)
@@ -75,13 +84,15 @@ HStep(h, s, s2, t, o, r, clk, guard, OIdxOf, tgt, busy) ==
       \* ---- sources promised by the property
       g == guard                                       \* guard released by unlock / consumed by cv_wait
       acqM(mm) == Take(h.mb[mm], 1)
+      pregranted == o.k = "acquire" /\ s.sem[m].fair /\ t \in s.sem[m].granted
       src ==
         CASE o.k = "lock" \/ (o.k = "try_lock" /\ r # 1) -> acqM(m).deps
           [] o.k = "cv_wait" -> acqM(o.v + 1).deps
                                 \cup (IF s2.cvgot[t+1].kind = "s" THEN {At(h.cvn[m], s2.cvgot[t+1].ep + 1)} ELSE {h.cvb[m]})
           [] o.k = "read" \/ (o.k = "try_read" /\ r # 1) -> Take(h.rb[m], 1).deps
           [] o.k = "write" \/ (o.k = "try_write" /\ r # 1) -> Take(h.rb[m], MaxReads).deps
-          [] (o.k = "acquire" /\ r = 0) \/ (o.k = "try_acquire" /\ r = 0) -> Take(h.sb[m], o.v).deps
+          [] (o.k = "acquire" /\ r = 0) \/ (o.k = "try_acquire" /\ r = 0) ->
+               IF pregranted THEN SetsAt(h.sg, t + 1) ELSE Take(h.sb[m], o.v).deps
           [] o.k \in {"load", "swap", "fadd", "fsub", "fmax", "fmin", "cas"} -> h.aw[m]
           [] o.k \in {"await_flag", "wake_only", "reg_flag"} -> h.fwr[m]
           \* the end of the child happens before the join (thread join, awaited or probed JoinHandle that delivered)
@@ -148,8 +159,11 @@ HStep(h, s, s2, t, o, r, clk, guard, OIdxOf, tgt, busy) ==
                 ELSE IF g.k = "w" THEN [hh EXCEPT !.rb[g.o + 1] = Append(@, [n |-> MaxReads, ev |-> n])] ELSE hh)
           [] o.k = "read" \/ (o.k = "try_read" /\ r # 1) -> [hh EXCEPT !.rb[m] = Take(h.rb[m], 1).rest]
           [] o.k = "write" \/ (o.k = "try_write" /\ r # 1) -> [hh EXCEPT !.rb[m] = Take(h.rb[m], MaxReads).rest]
-          [] (o.k = "acquire" /\ r = 0) \/ (o.k = "try_acquire" /\ r = 0) -> [hh EXCEPT !.sb[m] = Take(h.sb[m], o.v).rest]
-          [] o.k = "release" /\ o.v > 0 -> [hh EXCEPT !.sb[m] = Append(@, [n |-> o.v, ev |-> n])]
+          [] (o.k = "acquire" /\ r = 0) \/ (o.k = "try_acquire" /\ r = 0) ->
+               IF pregranted THEN hh ELSE [hh EXCEPT !.sb[m] = Take(h.sb[m], o.v).rest]
+          [] o.k = "release" /\ o.v > 0 ->
+               LET ga == GrantAll(Append(hh.sb[m], [n |-> o.v, ev |-> n]), hh.sg, s.sem[m].q, s2.sem[m].granted \ s.sem[m].granted) IN
+               [hh EXCEPT !.sb[m] = ga.bs, !.sg = ga.sg]
           [] o.k \in {"store", "swap", "fadd", "fsub", "fmax", "fmin"} \/ (o.k = "cas" /\ r < 256) -> [hh EXCEPT !.aw[m] = @ \cup {n}]
           [] o.k = "set_flag" -> [hh EXCEPT !.fwr[m] = @ \cup {n}]
           [] o.k \in {"spawn", "spawn_named", "sspawn", "spawn_future"} -> [hh EXCEPT !.born = SetAt(@, s.n + 1, n)]
